@@ -166,6 +166,32 @@ fn build_formatters() -> Vec<Box<dyn Formatter>> {
     ]
 }
 
+/// Verification hook: the intermediate values of `clean` / `list_all`, built with the real wiring
+/// of `build_remover` (markers, markers incl. pending, text after removal, removed positions).
+#[cfg(feature = "verif-hooks")]
+#[allow(clippy::type_complexity)]
+pub fn verif_trace(
+    content: Rc<String>,
+    delimiters: (String, String),
+    config: ChiritoriConfiguration,
+) -> (
+    Vec<remover::RemoveMarker>,
+    Vec<(remover::RemoveMarker, bool)>,
+    String,
+    Vec<remover::RemovedMarker>,
+) {
+    let (delimiter_start, delimiter_end) = delimiters;
+    let tokens = tokenizer::tokenize(&content, &delimiter_start, &delimiter_end);
+
+    let parsed = parser::parse(&tokens);
+    let remover = build_remover(config, content.clone());
+    let markers_all = remover.build_remove_marker_all(&parsed);
+    let (removed, markers) = remover.remove(parsed, &content);
+    let removed_pos = remover::get_removed_pos(&markers);
+
+    (markers, markers_all, removed, removed_pos)
+}
+
 #[cfg(test)]
 mod tests {
     use super::*;
